@@ -22,7 +22,15 @@ def run_property(pid, tier, seed, jobs, keep, text, only=None, replayer=None, mi
     if only:
         jobs = [j for j in jobs if only in repr(j)]
     units = run_units(D.sort_jobs(jobs))
-    D.filter_units(units, keep)
+
+    def keep2(name, ob):
+        # a response whose sessions disagree with the encryption flag handed in is outside the inputs of every property
+        # except C06/C08 (which demand a documented outcome there: open finding F6)
+        if "ENCFLAG/" in name and pid not in ("C06", "C08"):
+            return False
+        return keep(name, ob)
+
+    D.filter_units(units, keep2)
     rep.add(units)
     rep.min_obligations = min_obligations
     return rep.finish()
